@@ -1,7 +1,7 @@
 (* C11 -- uses_storage_type never under-reports a storage the stream touches
    Property theorems only: each proof is one application of a lemma proved in Proofs/, followed by Print Assumptions. *)
 From Coq Require Import ZArith List Bool.
-From CS Require SchedProofs.
+From CS Require SchedProofs UsesProofs.
 From CS Require Import Actions NAdvance Multistage Exec Sched RunFacts Projections BasicInv MultistageRun TLBridge MixBridge.
 Import ListNotations.
 Open Scope Z_scope.
@@ -14,4 +14,16 @@ Theorem C11_uses_never_raises :
 Proof. exact (@SchedProofs.uses_never_raises). Qed.
 Print Assumptions C11_uses_never_raises.
 End M_C11_uses_never_raises.
+
+(* if an emitted action writes a checkpoint to RAM / DISK or copies / moves one from or to it, uses_storage_type of that storage is True: every state of the extracted objects of None, SingleMemory, SingleDisk, TwoLevel, Multistage, Mixed (well_built = counts stored in the object are those of its labels / storage is a checkpoint storage); the Revolve family is excluded from well_built (oracle + correspondence only) *)
+Module M_C11_touch_implies_uses.
+Import UsesProofs.
+Theorem C11_touch_implies_uses :
+  forall (s s' : Sched.sched) (a : Actions.action) (sg : Actions.storage),
+         well_built s ->
+         Sched.next s = (s', Actions.Yield a) ->
+         touches a sg -> Sched.uses s sg = Sched.UTrue /\ Sched.uses s' sg = Sched.UTrue.
+Proof. exact (@UsesProofs.touch_implies_uses). Qed.
+Print Assumptions C11_touch_implies_uses.
+End M_C11_touch_implies_uses.
 
